@@ -142,3 +142,21 @@ Example C20_nonvacuous :
   c_id c3 = [65] /\ c_key c3 = 7 /\ c_version c3 = 2 /\ c_discoverable c3 = false /\
   c_discoverable (snd (start (unpair d3 [99]) [67] 5 [2])) = true /\ c_version (snd (start (unpair d3 [99]) [67] 5 [2])) = 2.
 Proof. exact config_nonvacuous. Qed.
+
+(** A FIRST start that ends early — wherever: before or after the id is written, after the
+    accessory's entity is saved, in the middle of save() (the order of these steps is read from
+    ip_transport.go and config.go on this run) — followed by a complete start: exactly one entity is
+    stored, the accessory's own, the accessory is announced as discoverable, and once anything was
+    written the id chosen by the first start is the id kept. *)
+Theorem C20_first_start_interrupted : forall n rid rkey h rid2 rkey2 h2, rid <> [] -> rid2 <> [] ->
+  let r := start (first_start_cut (fsteps_of (order_of Extracted.cfg_save_keys) Extracted.transport_start_steps) n rid rkey h) rid2 rkey2 h2 in
+  List.length (d_entities (fst r)) = 1%nat /\ c_discoverable (snd r) = true /\ (0 < n -> c_id (snd r) = rid)%nat.
+Proof. intros n rid rkey h rid2 rkey2 h2. apply first_start_cut_recovers. exact source_first_start_order. Qed.
+Print Assumptions C20_first_start_interrupted.
+
+(** The pinned order (entity first, id with save()) is refuted: ended after the entity was saved,
+    the next start chooses another id and stores a second entity — not discoverable, never paired. *)
+Theorem C20_refuted_id_written_last :
+  let r := start (first_start_cut [FDevice; FUuid; FVersion; FHash] 1 [65] 7 [1]) [66] 8 [1] in
+  List.length (d_entities (fst r)) = 2%nat /\ c_discoverable (snd r) = false.
+Proof. exact id_last_refuted. Qed.
